@@ -10,7 +10,7 @@ TFull == IsEvent("Full") /\ Full(Ev.t)
 TReq == IsEvent("Req") /\ Req(Ev.u, Ev.src, Ev.dns, Ev.c, Ev.reply, Ev.same, Ev.neff, Ev.t)
 TLogin == IsEvent("LoginOk") /\ LoginOk(Ev.u, Ev.addr, Ev.t)
 TRebind == IsEvent("Rebind") /\ Rebind(Ev.u, Ev.src, Ev.t, Ev.proof)
-TDown == IsEvent("Down") /\ Down(Ev.u, Ev.dst, Ev.to, Ev.t)
+TDown == IsEvent("Down") /\ Down(Ev.u, Ev.dst, Ev.to, Ev.t, Ev.fresh)
 TReset == IsEvent("Reset") /\ MIsReset
 TNext == TNew \/ TFull \/ TReq \/ TLogin \/ TRebind \/ TDown \/ TReset
 TraceSpec == TInit /\ [][TNext]_tvars
